@@ -3,10 +3,12 @@
 //! answers (impl.txt) and the input distribution (meta.json).
 mod c04;
 mod c05;
+mod c07;
 mod c12;
 mod c13;
 mod c14;
 mod c15;
+mod c16;
 mod dump;
 mod progs;
 mod util;
@@ -24,13 +26,21 @@ fn main() {
     let thorough = args[4] == "thorough";
     let dir = PathBuf::from(&args[5]);
     if std::env::var("P2H_LOUD").is_err() { util::quiet_panics(); }
+    // a runaway allocation (e.g. a builder that keeps doubling its degree) must fail inside this
+    // process instead of exhausting the machine
+    unsafe {
+        let lim = libc::rlimit { rlim_cur: 24 << 30, rlim_max: 24 << 30 };
+        libc::setrlimit(libc::RLIMIT_AS, &lim);
+    }
     let mut e = util::Emitter::new(&dir);
     let extra = serde_json::json!({});
     match prop {
         "c14" => c14::emit(&mut e, seed, thorough),
         "c04" => c04::emit(&mut e, seed, thorough),
+        "c07" => c07::emit(&mut e, seed, thorough),
         "c05" => c05::emit(&mut e, seed, thorough),
         "c12" => c12::emit(&mut e, seed, thorough),
+        "c16" => c16::emit(&mut e, seed, thorough),
         "c15" => c15::emit(&mut e, seed, thorough),
         "c13" => c13::emit(&mut e, seed, thorough),
         _ => {
